@@ -13,7 +13,9 @@ Ref == << 7, 64, 7, 16, 0, 32, 0, 0,      80, 0, 80, 0, 3, 9, 24, 0,
           33, 2, 0, 0, 232, 3, 0, 0,      2, 0, 0, 0, 0, 0, 0, 0,
           3, 106, 0, 0, 0, 0, 0, 0,       0, 0, 0, 0, 0, 0, 0, 0,
           1, 8, 0, 1, 0, 0, 0, 0,         0, 0, 0, 0, 0, 0, 0, 0 >>
-Letter == [page : 0..3, stop : 0..2, orbit : {1, 2}, trig : {3, 5}, fee : {7, 8}]
+\* (the alternatives of orbit, trigger type and FEE id differ in the SAME bit positions: changes of two fields that would cancel in a folded comparison
+\*  are part of the product)
+Letter == [page : 0..3, stop : 0..2, orbit : {1, 2}, trig : {5, 6}, fee : {5, 6}]
 \* the bytes a letter changes in Ref: << byte index, value >>
 Patch(l) == << <<36, l.page>>, <<38, l.stop>>, <<20, l.orbit>>, <<32, l.trig>>, <<2, l.fee>> >>
 RECURSIVE Apply(_, _)
